@@ -61,6 +61,9 @@ def entryClass (entry : String) (s : Str) : String :=
   | "deb.relaxed" => "ok"
   | "deb.para" => cls (isOk (Deb.paragraphFromStr s))
   | "deb.lossy" => cls (isOk (Deb.Lossy.read s))
+  | "deb.read" => cls (isOk (Deb.readStrict s))
+  | "deb.readrelaxed" => "ok"
+  | "deb.lossyreader" => cls (isOk (Deb.Lossy.read s))
   | "deb.lossypara" => cls (isOk (Deb.Lossy.readPara s))
   | "rel.strict" => cls (isOk (Rel.readStrict s))
   | "rel.relaxed0" => "ok"
